@@ -143,3 +143,19 @@ reg("C28", "exploration",
     "Each proggen program is linked by wild in every output kind its code model allows under pairwise-covering option vectors (relax, string merge, pack-relative-relocs, hash style, build-id, -z now, gc) and its transcript compared with GNU ld's default link of the same objects (lld must agree with ld first; ld under the same options must still print the expected transcript); a delta search names the responsible option.",
     "GNU ld is the arbiter with lld as cross-check.",
     "runtime differential monitor: program transcripts across an option matrix")
+reg("C05", "exploration",
+    "Two oracles: freestanding asm node graphs (cycles, references only through section symbols, __start_/__stop_ sets, exported symbols, .init_array entries, SHF_GNU_RETAIN, notes, KEEP scripts, -u) and proggen programs compiled with -ffunction-sections/-fdata-sections are linked with --gc-sections under threads {1,16}, files-per-group and schedule perturbation; an independent reachability closure over the INPUT objects (own COMDAT/weak resolution, roots from the statement) must be a subset of the sections placed in .layout, and the program's output must equal the --no-gc-sections and GNU ld links; ld --print-gc-sections calibrates the closure.",
+    "Over-retention is legal (closure is a subset of kept); PIE/shared graphs are checked statically only.",
+    "runtime monitor: independent reachability model vs layout side file + behavioural differential")
+reg("C10", "exploration",
+    "An independent .eh_frame/.eh_frame_hdr parser checks on wild's output: table count == number of FDEs, sorted, each entry points at an FDE starting there, every FDE has an entry, the set of output FDEs equals the input FDEs whose function section was placed (none for GC'd or COMDAT-loser functions, none missing), per-FDE ranges/CIE/LSDA/personality; the same oracle runs first on GNU ld's output; the real consumer (libgcc _Unwind_Find_FDE on the first and last byte of every function, C++ exceptions thrown through 3-9 frames across objects, archives, libraries) confirms; proggen and generated exception-chain programs, all output kinds, threads and perturbation.",
+    "x86-64 only; check classes GNU ld's output fails are dropped per case.",
+    "runtime table monitor (independent parser) + libgcc unwinder as consumer")
+reg("C31", "exploration",
+    "Generated freestanding programs (symbol kinds x bindings x four visibilities x shapes: weak+strong, commons, archives, imports, references carrying visibility) x output kinds x export options (-E, export lists, dynamic lists, --exclude-libs, version scripts, -s/-S/-x/-X, --retain-symbols-file): wild's .symtab/.dynsym must satisfy the statement's invariants (sh_info, locals first, unique globals, value inside its section and equal to layout placement + input value, type/size/binding/visibility from a resolution model over the inputs, required <= dynsym <= allowed), each rule calibrated on GNU ld's output, plus a per-name differential with GNU ld (lld as tie-breaker).",
+    "Attributes where ld and lld disagree are counted as open, not judged; addresses are never compared.",
+    "runtime table monitor with a resolution model + differential vs GNU ld/lld")
+reg("C34", "exploration",
+    "Quiet: wild outputs (with .layout/.trace) of proggen and freestanding programs are compared by the real linker-diff with themselves and with byte-identical copies, with and without --wild-defaults: no report allowed. Catches: for (GNU ld reference, wild under test) pairs whose unmodified comparison is clean, one relocated reference at a time (call/jmp rel32, RIP-relative lea/mov, GOT slot, data/.init_array pointer incl. RELATIVE addend) is redirected to another symbol in a copy of wild's output; every corruption must make linker-diff exit non-zero. Sites come from the input relocation tables, the layout and the output symtab and are verified before patching.",
+    "Only program shapes whose clean comparison is clean can be corrupted (mostly freestanding asm).",
+    "runtime monitor: real linker-diff on identical pairs and on single-site corruptions")
